@@ -200,6 +200,20 @@ def run(pid, codes, tier, seed, what):
                 {v: k for k, v in ir2coq.K.items()}.get(nd[0]) if nd else "?", " " + nm[0] if nm else "", detail[:300]),
                 dict(lang=it["lang"], combo=it["combo"], seed=it["seed"], program_bin=binp,
                      errors=[dict(path=p_, code=c_, what=codes[c_], types=d_[:400]) for p_, c_, d_ in mine[:10]]))
+    if pid == "C05":
+        # the mechanism behind "never a reserved word": after the per-program reset the identifier pool
+        # contains no word one of whose forms (as is / lower / capitalized) is reserved
+        from src import utils
+        for lang in T.LANGS:
+            rw = W.reserved(lang)
+            if not rw:
+                continue
+            progs.generate_setup(lang, 1)
+            utils.random.reset_word_pool()
+            badw = sorted(w for w in utils.random.WORDS if w in rw or w.lower() in rw or w.capitalize() in rw)
+            if badw:
+                rep.violation("reserved-word-pool", "%s: after reset_word_pool the identifier pool contains reserved words %s" % (lang, badw[:5]),
+                              dict(lang=lang, words=badw[:20]))
     for name, out in broken:
         rep.violation("case-file", "case file %s did not evaluate: %s" % (name, out[-400:]), dict(broken=name, log=out), no_input=True)
     for name, out in cbad:
